@@ -1490,4 +1490,23 @@ def run(rep, ctx):
         g = fa[0]
         p3.check(any(x["k"] == "CXXOperatorCallExpr" and x.get("op") == "<<" for x in g.walk()), "appender-writes", short_loc(g.loc),
                  "FileAppender::Append writes the buffer to the stream")
+    # the export starts from an empty file: Open(name, erase = true) truncates; the exporter asks for it
+    fo = [f for f in funcs if f.qn == "mp::FileAppender__fstream::Open"]
+    if fo:
+        g = fo[0]
+        er = g.params[1] if len(g.params) > 1 else None
+        trunc = []
+        for n in g.walk():
+            if n["k"] in ("CXXConstructExpr", "CXXTemporaryObjectExpr", "CXXMemberCallExpr") and "trunc" in render(n) and \
+                    ("ofstream" in (n.get("callee") or "") + (n.get("ct") or "") or (n.get("callee") or "").endswith("::open")):
+                trunc.append(n)
+        oke = er is not None and any((er["name"], True) in norm_facts(g, n) for n in trunc) and \
+            all("app" not in render(n).replace("std::ios::app", "app") or "trunc" in render(n) for n in trunc)
+        oke = oke and any(g.params[0]["name"] in render(n) for n in trunc)
+        p3.check(oke, "appender-erases", short_loc(g.loc), "Open(name, erase) truncates the named file when erase is set (an append-mode stream cannot: it always writes at the end)",
+                 "Open(name, erase = true) does not truncate the file: records of an earlier run stay in the export, so items get two status records and records name items the model does not have")
+        oge = [f for f in funcs if f.qn == "mp::FlatConverter::OpenGraphExporter"]
+        opn = [c for f in oge[:1] for c in f.walk() if c["k"] == "CXXMemberCallExpr" and (c.get("callee") or "").endswith("FileAppender::Open")]
+        p3.check(len(opn) == 1 and len(call_args(opn[0])) >= 2 and cv(call_args(opn[0])[1]) == 1, "exporter-opens-erasing", short_loc(oge[0].loc) if oge else "",
+                 "OpenGraphExporter opens the file with erase = true")
     return rep
